@@ -548,7 +548,7 @@ def exec_case(ctx, case, script=None, rng=None, nsteps=0, split=False, tags=None
         if case.get("sched") is not None:
             for ev in case["sched"]:
                 rig.do(tuple(ev) if isinstance(ev, list) else ev)
-            drained = False
+            drained = rig.drain()       # a recorded schedule already ends drained; then this adds nothing
         else:
             if script is not None:
                 directed(rig, script)
